@@ -74,7 +74,7 @@ CHECKS = {
    "DESIGN.md §3 C16", "harness"),
  "C04": ("fault_enumeration",
    "property-based scenario generation (proptest) + exhaustive fault injection: every connection-failure kind at every byte boundary of the scenario's request and response streams on the deterministic simulated connection, virtual-clock watchdog as hang detector",
-   "Per generated scenario (1-5 pending operations/streams, merge order, read/write segmentation) the response and request streams are fixed by a fault-free run; then EOF and reset after every byte, undecodable frames and unbind at every PDU boundary, write failure after every request byte and last-handle drop are injected and each run is judged (termination, delivered responses intact, all other pending work fails, later operations fail immediately, transport closed).",
+   "Per generated scenario (1-5 pending operations/streams, merge order, read/write segmentation) the response and request streams are fixed by a fault-free run; then EOF and reset after every byte, undecodable frames and unbind at every PDU boundary, write failure after every request byte and last-handle drop are injected and each run is judged (termination, delivered responses intact, all other pending work fails, later operations fail immediately, transport closed). A second lane does the same for searches that span several requests (PagedResults streams: fault after every response PDU, right behind a page result or after the follow-up request).",
    "Trusted base: SIM (scripted transport with fault injection, paused clock => the watchdog firing proves a future can never complete; a reader polling a finished transport >2000 times is parked and reported as livelock). Client-side events are injected at driver quiescence only.",
    "DESIGN.md §3 C04", "harness"),
  "C05": ("exploration",
